@@ -1005,3 +1005,25 @@ mod tests {
         );
     }
 }
+
+//------------ Verification hooks (off by default) ---------------------------
+
+/// Add-only access for the external verification harness (feature
+/// `verif-hooks`): calls the private `read_from_router` unchanged with any
+/// `AsyncRead`, so byte streams and I/O faults can be fed without sockets.
+#[cfg(feature = "verif-hooks")]
+pub mod verif_hooks {
+    use super::*;
+
+    pub async fn read_from_router<T: AsyncRead + Unpin>(
+        handler: &RouterHandler,
+        rx: T,
+        router_addr: SocketAddr,
+        ingress_id: IngressId,
+        ingress_register: Arc<ingress::Register>,
+    ) {
+        handler
+            .read_from_router(rx, router_addr, ingress_id, ingress_register)
+            .await
+    }
+}
